@@ -42,7 +42,7 @@ Objects == Shells \cup Arrays \cup Lists
 \* The value of any other object is a single id; 0 is the empty list.
 Init == /\ val = [o \in Objects |-> IF o \in Shells THEN <<1, 1>> ELSE 1]
         /\ npErr = 1
-        /\ memo = (<<"assign_norm", 1>> :> 1)          \* a shell is normalised when constructed
+        /\ memo = [k \in {<<"assign_norm", s, 1>> : s \in Shells} |-> 1]   \* a shell is normalised when constructed
         /\ last = <<"init">>
 
 KeyOf(f) == <<f, [i \in 1..Len(ArgsOf[f]) |-> val[ArgsOf[f][i]]]>>
@@ -66,7 +66,7 @@ Mutate(s, p2) ==
 \* assign_norm_cont(): the normalisation is recomputed; it is a function of the parameters only
 AssignNorm(s, n) ==
   /\ val' = [val EXCEPT ![s] = <<@[1], n>>]
-  /\ Remember(<<"assign_norm", val[s][1]>>, n)
+  /\ Remember(<<"assign_norm", s, val[s][1]>>, n)      \* ids are per object: shell s with parameters p
   /\ UNCHANGED npErr
   /\ last' = <<"assign_norm", s>>
 
@@ -105,7 +105,7 @@ MemoStable == [][\A k \in DOMAIN memo : k \in DOMAIN memo' /\ memo'[k] = memo[k]
 
 \* after assign_norm the cached normalisation is the one that belongs to the current parameters
 AfterAssign == last[1] = "assign_norm" =>
-                 LET s == last[2] IN memo[<<"assign_norm", val[s][1]>>] = val[s][2]
+                 LET s == last[2] IN memo[<<"assign_norm", s, val[s][1]>>] = val[s][2]
 
 ErrStateKept == npErr = 1
 =============================================================================
